@@ -201,6 +201,53 @@ func c19Check(r *Run, l *Local, t *etree) {
 			return
 		}
 	}
+	// a consumer whose loop body PANICS at element k+1 and recovers further up (an http.Handler under net/http does exactly
+	// that): the traversals that follow - of the same value and of fresh ones - are complete and exact
+	// (lesson of seeded change C19-p: traversal scratch space borrowed from a pool and handed back dirty when unwinding)
+	for k := 0; k < n && k < 24; k++ {
+		func() {
+			defer func() { _ = recover() }()
+			seen := 0
+			for range seq {
+				seen++
+				if seen == k+1 {
+					panic("verif: consumer gives up")
+				}
+			}
+		}()
+		if !full(fmt.Sprintf("after the loop body panicked at element %d", k+1), k) {
+			return
+		}
+		var fresh []int
+		for e := range cfgerrors.All(err) {
+			fresh = append(fresh, leafID(e))
+		}
+		l.evals++
+		if !equalInts(sortedInts(fresh), sortedInts(want)) {
+			r.Violate("traversal-after-panicking-consumer", "flatten-vs-All", fmt.Sprintf("tree %s: after a consumer panicked at element %d of an earlier traversal, a fresh All yielded leaves %v; the tree has leaves %v", t, k+1, fresh, want), c19Case{t, k})
+			return
+		}
+	}
+	// OVERLAPPING traversals of one iterator value: inside the body of a range over seq, seq is ranged over again in full;
+	// each inner traversal and the outer one yield exactly the leaves
+	// (lesson of seeded change C05-p: traversal state shared by all traversals of one iter.Seq value)
+	if n <= 48 {
+		var outer []int
+		for e := range seq {
+			outer = append(outer, leafID(e))
+			if !full(fmt.Sprintf("while an outer traversal of the same value stands at element %d", len(outer)), len(outer)-1) {
+				return
+			}
+			if len(outer) > 4*n+8 {
+				break
+			}
+		}
+		l.evals++
+		if !equalInts(sortedInts(outer), sortedInts(want)) {
+			r.Violate("overlapping-traversals", "flatten-vs-All", fmt.Sprintf("tree %s: a traversal during which the same iterator value was ranged over again yielded leaves %v; the tree has leaves %v", t, outer, want), c19Case{t, -1})
+			return
+		}
+	}
 }
 
 // enumTrees enumerates all plane trees with exactly n leaves and depth <= d whose internal nodes are joins (arity >= 1).
